@@ -1967,3 +1967,50 @@ def c12_r5(ctx):
     vals = [norm(st.value) for st in ast.walk(init.node) if (isinstance(st, ast.Assign) and any(norm(t) == "self.async_client" for t in st.targets)) or
             (isinstance(st, ast.AnnAssign) and st.value is not None and norm(st.target) == "self.async_client")]
     ctx.check(vals == ["async_client"], key(init, "flag stored"), f"self.async_client is assigned {vals}; it must be the constructor's parameter", init.loc(), okmsg="self.async_client = async_client")
+
+
+@rule("C04.R21", "what one step records is what a later step reads: a result class is exported the moment it is created (once), and every operation's unpacked fragments are accumulated for the fragments module",
+      min_instances=4, also=["C01", "C08", "C09", "C12"])
+def c04_r21(ctx):
+    repo = ctx.repo
+    ptd = repo.func(RT + "_parse_type_definition")
+    p0 = real_params(ptd)[0]
+    eff = lambda c: isinstance(c.func, ast.Attribute) and c.func.attr in ("append", "add", "extend", "remove", "clear") and norm(c.func.value) == "self._public_names"
+    for known in (False, True):
+        def atom(e, known=known):
+            t = str(norm(strip_pre(e)))
+            if t == f"{p0} in self._public_names":
+                return known
+            if t == f"{p0} not in self._public_names":
+                return not known
+            return None
+        outs = [o for o in Interp(ptd, atom, is_effect=eff, max_paths=400).run() if o.kind == "return"]
+        good = bool(outs)
+        for o in outs:
+            effs = [str(norm(strip_pre(e))) for e in o.effects]
+            if known:
+                good = good and not effs and norm(strip_pre(o.value)) in ("[]", "list()")
+            else:
+                good = good and effs == [f"self._public_names.append({p0})"]
+        ctx.check(good, key(ptd, f"already exported={known}"), f"[class name {'already' if known else 'not yet'} exported] " +
+                  ("nothing may be generated or recorded a second time" if known else f"the class name must be recorded in self._public_names exactly once: {[o.text()[:100] for o in outs][:1]}"), ptd.loc(),
+                  okmsg=f"_parse_type_definition: {'second request -> nothing' if known else 'new class -> name recorded once'}")
+    gp = repo.func(RT + "get_generated_public_names")
+    rets = [norm(r.value) for r in ast.walk(gp.node) if isinstance(r, ast.Return) and r.value is not None]
+    ctx.check(rets in (["self._public_names"], ["list(self._public_names)"]), key(gp, "returns the recorded names"), f"returns {rets}", gp.loc(), okmsg="get_generated_public_names returns the recorded names")
+    ao = repo.func(PGEN + "add_operation")
+    stores = [st for st in ast.walk(ao.node) if (isinstance(st, ast.Assign) and any(norm(t) == "self._unpacked_fragments" for t in st.targets)) or
+              (isinstance(st, ast.AugAssign) and norm(st.target) == "self._unpacked_fragments")]
+    upd = [c for c in ast.walk(ao.node) if isinstance(c, ast.Call) and isinstance(c.func, ast.Attribute) and c.func.attr in ("update", "add") and norm(c.func.value) == "self._unpacked_fragments"]
+    src = ".get_unpacked_fragments()"
+    ok = False
+    for st in stores:
+        t = str(norm(st.value))
+        if isinstance(st, ast.AugAssign):
+            ok = ok or (isinstance(st.op, ast.BitOr) and src in t)
+        else:
+            ok = ok or ("self._unpacked_fragments" in t and src in t and (".union(" in t or " | " in t) and ".intersection(" not in t and " & " not in t and ".difference(" not in t)
+    for c in upd:
+        ok = ok or (c.func.attr == "update" and any(src in norm(a) for a in c.args))
+    ctx.check(ok and len(stores) + len(upd) == 1, key(ao, "unpacked fragments accumulated"), "add_operation must add the operation's unpacked fragments to self._unpacked_fragments (union with what earlier operations recorded): "
+              f"{[norm(st)[:120] for st in stores] + [norm(c)[:120] for c in upd]}", ao.loc(), okmsg="add_operation: self._unpacked_fragments |= the operation's unpacked fragments")
